@@ -290,7 +290,161 @@ def clause_sac(cases, ctx: Ctx):
     return out
 
 
-CLAUSES = {"dqn": clause_dqn, "sac": clause_sac}
+# ---------------------------------------------------------------------------------------
+# wiring: the same closed forms, observed through the real reset + iteration
+# ---------------------------------------------------------------------------------------
+ITER_VARIANTS = {
+    # name: (T, term, init, limit) over 2 states; every stored row is the same (obs 0 -> nobs, flags)
+    "nonterminal": ([[0, 0], [0, 0]], [False, False], [True, False], 0),
+    "terminal": ([[1, 1], [1, 1]], [False, True], [True, False], 0),
+    "truncated": ([[0, 0], [0, 0]], [False, False], [True, False], 1),
+    "terminal-and-truncated": ([[1, 1], [1, 1]], [False, True], [True, False], 1),
+}
+_ITER = {}
+from lerax.callback import CallbackList  # noqa: E402
+
+
+def _iter_driver(kind, variant, gamma, E, T):
+    k = (kind, variant, gamma, E, T)
+    if k not in _ITER:
+        Tt, term, init, limit = ITER_VARIANTS[variant]
+        cb = CallbackList(callbacks=[])
+        if kind == "sac":
+            env = TabEnv(np.asarray(Tt), term, init, limit=limit, act_kind="box", obs_kind="onehot")
+            algo = SAC(buffer_size=8 * E, gamma=gamma, learning_starts=2, num_envs=E, num_steps=T, batch_size=3, policy_frequency=2,
+                       q_width_size=2, q_depth=0, autotune=True, tau=0.5)
+            object.__setattr__(algo, "q_optimizer", optax.sgd(1.0))
+        else:
+            env = TabEnv(np.asarray(Tt), term, init, limit=limit, act_kind="discrete", obs_kind="discrete")
+            algo = DQN(buffer_size=8 * E, gamma=gamma, learning_starts=2, num_envs=E, num_steps=T, batch_size=3, target_update_interval=1000)
+            object.__setattr__(algo, "optimizer", optax.sgd(1.0))
+
+        @eqx.filter_jit
+        def run(policy, nets, key):
+            k0, k1 = jr.split(key)
+            st = algo.reset(env, policy, key=k0, callback=cb)
+            if kind == "sac":
+                qf1, qf2, qt1, qt2, la = nets
+                st = eqx.tree_at(lambda s: (s.qf1, s.qf2, s.qf1_target, s.qf2_target, s.log_alpha), st, (qf1, qf2, qt1, qt2, la))
+            else:
+                st = eqx.tree_at(lambda s: s.target_policy, st, nets)
+            return algo.iteration(st, key=k1, callback=cb)
+
+        _ITER[k] = (env, run)
+    return _ITER[k]
+
+
+def _rows_of(buffer, E):
+    """written rows of the (possibly per-environment) replay buffer as python tuples"""
+    rows = []
+    f = lambda x: np.asarray(x)
+    pos = f(buffer.position).reshape(-1)
+    for e in range(E):
+        g = (lambda x: f(x)[e]) if E > 1 else f
+        for i in range(int(pos[e])):
+            rows.append((g(buffer.observations)[i].tolist(), float(g(buffer.actions)[i]), float(g(buffer.rewards)[i]),
+                         g(buffer.next_observations)[i].tolist(), bool(g(buffer.dones)[i]), bool(g(buffer.timeouts)[i])))
+    return rows
+
+
+def clause_iter(cases, ctx: Ctx):
+    """case: {kind: sac|dqn, variant, num_envs, num_steps, gamma, key, + network alphabets}.  The environment stores one and the same
+    row whatever happens, so the minibatch drawn inside the real iteration() is known without knowing its key; the update applied by
+    iteration() (SGD lr 1 swapped in) must be the gradient of the squared error against the target built from the state's TARGET networks."""
+    out = []
+    for ci, c in enumerate(cases):
+        kind, variant, E, T, gamma = c["kind"], c["variant"], c["num_envs"], c["num_steps"], c["gamma"]
+        env, run = _iter_driver(kind, variant, gamma, E, T)
+        desc = f"{kind.upper()}.iteration num_envs={E} num_steps={T} gamma={gamma} environment '{variant}'"
+        if kind == "sac":
+            a = c["action"]
+            policy = ScriptedSAC(env, [a])
+            nets = (linear_q(c["w1"], c["b1"]), linear_q(c["w2"], c["b2"]), linear_q(c["tw1"], c["tb1"]), linear_q(c["tw2"], c["tb2"]),
+                    jnp.log(jnp.asarray(c["alpha"], dtype=float)))
+        else:
+            policy = TabularQ(2, 2, c["Qon"])
+            nets = TabularQ(2, 2, c["Qtg"])
+        st = run(policy, nets, jr.key(c["key"]))
+        ctx.transitions += 1
+        rows = _rows_of(st.step_state.buffer, E)
+        # trace validation: the environment's answers, read back from the buffer
+        nob_idx = 1 if variant.startswith("terminal") else 0
+        want_done = variant != "nonterminal"
+        want_timeout = variant == "truncated"
+        if len(rows) != E * (2 + T) or len({(tuple(np.ravel(r[0])), r[1], r[2], tuple(np.ravel(r[3])), r[4], r[5]) for r in rows}) != 1:
+            raise AssertionError(f"harness: {desc}: buffer rows not homogeneous: {rows}")
+        o, act, rew, no, d, to = rows[0]
+        if (d, to) != (want_done, want_timeout):
+            out.append((ci, "C07/iter/flags", f"{desc}: stored (done, timeout) = {(d, to)}, the environment produced {(want_done, want_timeout)}"))
+            continue
+        terminated = d and not to
+        ctx.guard(f"iter-{kind}-{'terminated' if terminated else ('truncated' if to else 'running')}")
+        if kind == "sac":
+            lp = -0.25 * (nob_idx + 1) - action_penalty_np(a, "box")
+            qt1, qt2 = q_lin(c["tw1"], c["tb1"], nob_idx, a), q_lin(c["tw2"], c["tb2"], nob_idx, a)
+            qo1, qo2 = q_lin(c["w1"], c["b1"], nob_idx, a), q_lin(c["w2"], c["b2"], nob_idx, a)
+            ctx.guard("iter-sac-target1-decides", int(qt1 < qt2 and min(qo1, qt2) != qt1))
+            ctx.guard("iter-sac-target2-decides", int(qt2 < qt1 and min(qt1, qo2) != qt2))
+            boot = 0.0 if terminated else 1.0
+            y = rew + gamma * boot * (min(qt1, qt2) - c["alpha"] * lp)
+            alts = {
+                "online-critic-1-used-as-target": rew + gamma * boot * (min(qo1, qt2) - c["alpha"] * lp),
+                "online-critic-2-used-as-target": rew + gamma * boot * (min(qt1, qo2) - c["alpha"] * lp),
+                "online-critics-in-target": rew + gamma * boot * (min(qo1, qo2) - c["alpha"] * lp),
+                "bootstraps-through-termination": rew + gamma * (min(qt1, qt2) - c["alpha"] * lp),
+                "no-bootstrap-through-truncation": rew + gamma * (0.0 if d else 1.0) * (min(qt1, qt2) - c["alpha"] * lp),
+            }
+            x = np.concatenate([np.asarray(o, dtype=np.float64), [act]])
+            got = []
+            for (w, b, new) in ((c["w1"], c["b1"], st.qf1), (c["w2"], c["b2"], st.qf2)):
+                dw = np.asarray(w, dtype=np.float64) - np.asarray(new.mlp.layers[0].weight, dtype=np.float64).reshape(-1)
+                db = float(b) - float(np.asarray(new.mlp.layers[0].bias).reshape(-1)[0])
+                got.append(np.concatenate([dw, [db]]))
+            got = np.concatenate(got)
+            xe = np.concatenate([x, [1.0]])
+
+            def grad(target):
+                e1 = q_lin(c["w1"], c["b1"], 0, act) - target
+                e2 = q_lin(c["w2"], c["b2"], 0, act) - target
+                return np.concatenate([e1 * xe, e2 * xe])
+
+            shown = f"critics w1={c['w1']} b1={c['b1']} w2={c['w2']} b2={c['b2']}, targets tw1={c['tw1']} tb1={c['tb1']} tw2={c['tw2']} tb2={c['tb2']}, alpha={c['alpha']}, actor action {a}"
+        else:
+            Qon, Qtg = np.asarray(c["Qon"], dtype=np.float64), np.asarray(c["Qtg"], dtype=np.float64)
+            act_i = int(act)
+            if act_i != int(np.argmax(Qon[0])):
+                raise AssertionError(f"harness: {desc}: stored action {act} is not the greedy action of {Qon[0]}")
+            a_star = int(np.argmax(Qon[nob_idx]))
+            boot = 0.0 if terminated else 1.0
+            y = rew + gamma * boot * Qtg[nob_idx, a_star]
+            alts = {
+                "online-net-used-as-target": rew + gamma * boot * Qon[nob_idx, a_star],
+                "target-argmax-from-target-net": rew + gamma * boot * Qtg[nob_idx].max(),
+                "bootstraps-through-termination": rew + gamma * Qtg[nob_idx, a_star],
+                "no-bootstrap-through-truncation": rew + gamma * (0.0 if d else 1.0) * Qtg[nob_idx, a_star],
+            }
+            ctx.guard("iter-dqn-target-neq-online", int(Qtg[nob_idx, a_star] != Qon[nob_idx, a_star]))
+            got = (Qon - np.asarray(st.policy.Q, dtype=np.float64)).reshape(-1)
+
+            def grad(target):
+                g = np.zeros((2, 2))
+                g[0, act_i] = Qon[0, act_i] - target
+                return g.reshape(-1)
+
+            shown = f"online Q={Qon.tolist()} target Q={Qtg.tolist()}"
+        ok = any(np.all(refs.close(got, 2.0 * kap * grad(y), 1e-4)) for kap in (0.5, 1.0))
+        if not ok:
+            sig = f"C07/iter/{kind}/update"
+            for name, ya in alts.items():
+                if not refs.close(ya, y, 1e-9) and any(np.all(refs.close(got, 2.0 * kap * grad(ya), 1e-4)) for kap in (0.5, 1.0)):
+                    sig = f"C07/iter/{kind}/target/{name}"
+                    break
+            out.append((ci, sig, f"{desc}: stored row (obs, act, rew, nobs, done, timeout)={rows[0]}, {shown}: update applied by iteration() {got.tolist()} is not the "
+                                 f"gradient of the squared error against y = {y} ({(2.0 * 0.5 * grad(y)).tolist()} at scale 1/2)"))
+    return out
+
+
+CLAUSES = {"dqn": clause_dqn, "sac": clause_sac, "iter": clause_iter}
 
 
 def orderings(A, values):
@@ -357,8 +511,28 @@ def explore(ctx: Ctx):
                                             alpha=alpha, gamma=g, next_action=na, key=ctx.seed))
     ctx.run("sac", sac)
     ctx.nontrivial |= {("sac", i) for i, c in enumerate(sac) if any(r[4] for r in c["rows"])}
+    itc = []
+    qtabs = [[[1.0, 2.0], [2.0, 1.0]], [[2.0, 1.0], [1.0, 2.0]], [[1.0, 2.0], [1.0, 2.0]]]
+    ttabs = [[[10.0, 20.0], [40.0, 30.0]], [[20.0, 10.0], [30.0, 40.0]]]
+    for variant in ITER_VARIANTS:
+        for (E, T) in (((1, 1), (2, 1), (1, 2), (2, 3)) if thorough else ((1, 1), (2, 2))):
+            for g in ((0.5, 1.0) if thorough else (0.5,)):
+                for qon in qtabs:
+                    for qtg in ttabs:
+                        itc.append(dict(kind="dqn", variant=variant, num_envs=E, num_steps=T, gamma=g, Qon=qon, Qtg=qtg, key=ctx.seed))
+                for (w1, b1), (w2, b2) in ((wA[0], wA[1]), (wA[1], wA[0])):
+                    for (t1, t2) in tA + [(b, a) for (a, b) in tA]:
+                        for alpha in ((0.2, 1.0) if thorough else (0.2,)):
+                            for na in (0.5, -1.0):
+                                itc.append(dict(kind="sac", variant=variant, num_envs=E, num_steps=T, gamma=g, w1=w1[:], b1=b1, w2=w2[:], b2=b2,
+                                                tw1=t1[0], tb1=t1[1], tw2=t2[0], tb2=t2[1], alpha=alpha, action=na, key=ctx.seed))
+    ctx.run("iter", itc)
+    ctx.nontrivial |= {("iter", i) for i, c in enumerate(itc) if c["variant"] != "nonterminal"}
+    ctx.notes["iter_cases"] = len(itc)
     ctx.notes["dqn_cases"] = len(dqn)
     ctx.notes["sac_cases"] = len(sac)
     ctx.notes["kappa_seen"] = {k: sorted(v) for k, v in KAPPA.items()}
     ctx.require("dqn-terminated-rows", "dqn-timeout-rows", "dqn-double-neq-vanilla", "dqn-target-neq-online-eval",
-                "sac-terminated-rows", "sac-timeout-rows", "sac-q1-lt-q2", "sac-q2-lt-q1")
+                "sac-terminated-rows", "sac-timeout-rows", "sac-q1-lt-q2", "sac-q2-lt-q1",
+                "iter-sac-terminated", "iter-sac-truncated", "iter-sac-running", "iter-dqn-terminated", "iter-dqn-truncated", "iter-dqn-running",
+                "iter-sac-target1-decides", "iter-sac-target2-decides", "iter-dqn-target-neq-online")
